@@ -45,7 +45,7 @@ def countersOK (installed : Bool) (max : Nat) (o : StepObs) : Bool :=
     && (o.states != 0 || (o.inFlight == 0 && o.blocking == 0))
 
 def isDelivery : Op → Bool
-  | .q _ _ _ | .m _ | .H => true
+  | .q _ _ _ | .m _ | .a _ | .H => true
   | _ => false
 
 def isSimple : Op → Bool
@@ -63,6 +63,7 @@ structure Track where
 
 def matchesOp : Entry → Op → Bool
   | .handled k, .m k' => k == k'
+  | .handled k, .a k' => k == 100 + k'
   | .req k _, .q k' _ _ => k == k'
   | _, _ => false
 
